@@ -26,6 +26,9 @@ theorem evalAt_gfun {α : Type} (E : RodasEnv α) (g : Nat → α → α) (hg : 
     (τ : α) : E.evalAt i τ = g i τ := by
   simp [evalAt, evalEvents, hg, List.getD_eq_getElem?_getD, hi]
 
+theorem evalEvents_length {α : Type} (E : RodasEnv α) (τ : α) : (E.evalEvents τ).length = E.events.length := by
+  unfold evalEvents; split <;> simp
+
 section Q
 variable (E : RodasEnv ℚ)
 
